@@ -258,3 +258,49 @@ Proof.
   - unfold refusedb in Er. rewrite Er. cbn [negb fold_left answers].
     destruct (IH (api_state c ps op)) as (H1 & H2). split; [exact H1|]. f_equal. exact H2.
 Qed.
+
+(* ------------------------------------------------------------------ the files after any API history (C06, C07) *)
+Lemma Inv_C06 c st : Inv c st -> Forall (C06_file c) (all_files st).
+Proof.
+  intros [_ Hf Ho]. unfold all_files. apply Forall_app. split.
+  - eapply Forall_impl; [|exact Hf]. intros a (H & _). eapply FWF_C06; exact H.
+  - destruct (w_openf st) as [a|]; [|constructor]. constructor; [|constructor].
+    destruct Ho as (_ & H & _). eapply FWF_C06; exact H.
+Qed.
+
+Lemma InvU_full_block c st : InvU c st ->
+  Forall (fun a => f_index a = [(wlo c (f_ms a), 0)] /\ zlen (f_data a) = whi c (f_ms a) - wlo c (f_ms a)) (all_files st).
+Proof.
+  intros [_ Hf Ho]. unfold all_files. apply Forall_app. split.
+  - eapply Forall_impl; [|exact Hf]. intros a ((H1 & H2 & _) & _). auto.
+  - destruct (w_openf st) as [a|]; [|constructor]. constructor; [|constructor].
+    destruct Ho as (_ & (H1 & H2 & _) & _). auto.
+Qed.
+
+(* chunked layouts (gapped mode; continuous with compression or checksums): every file the writer
+   holds after any API history satisfies the index invariants of C06 *)
+Theorem api_files_C06_gapped c ops : vcfg c -> c_chunk c = true -> c_cont c = false ->
+  Forall api_arg_ok ops ->
+  Forall (C06_file c) (all_files (p_w (fold_left (api_state c) ops py_init))).
+Proof.
+  intros Hc Hch Hco Hops. destruct (api_history_gapped c ops Hc Hch Hco Hops) as (_ & (HI & _) & _).
+  apply Inv_C06. exact HI.
+Qed.
+
+Theorem api_files_C06_continuous_chunked c ops : vcfg c -> c_chunk c = true -> c_cont c = true ->
+  Forall api_arg_ok ops ->
+  Forall (C06_file c) (all_files (p_w (fold_left (api_state c) ops py_init))).
+Proof.
+  intros Hc Hch Hco Hops. destruct (api_history_continuous_chunked c ops Hc Hch Hco Hops) as (_ & (HI & _) & _).
+  apply Inv_C06. exact HI.
+Qed.
+
+(* un-chunked continuous layout: every file is one block exposing every slot of its window *)
+Theorem api_files_full_block c ops : vcfg c -> c_chunk c = false -> c_cont c = true ->
+  Forall api_arg_ok ops ->
+  Forall (fun a => f_index a = [(wlo c (f_ms a), 0)] /\ zlen (f_data a) = whi c (f_ms a) - wlo c (f_ms a))
+         (all_files (p_w (fold_left (api_state c) ops py_init))).
+Proof.
+  intros Hc Hch Hco Hops. destruct (api_history_continuous_unchunked c ops Hc Hch Hco Hops) as (_ & HR & _).
+  apply InvU_full_block. exact (ru_inv _ _ _ HR).
+Qed.
